@@ -386,6 +386,23 @@ def build(run):
                 return N.add(den(w, a, c, env), den(w, b, c, env))
             return check_same(atoms_world(), both, spec, both.ufl_shape, timeout_ms=tmo, what=name)
         run.add(f"one-pass/{name}", thunk, kind="values")
+    # ---- user-supplied coefficient derivative relations with COMPLEX field values: the derivative is linear (not anti-linear) in the direction; written out by hand
+    def cd_complex():
+        cases = [("g*g, dg/df = h", lambda: g * g, lambda: 2 * g * h * vf), ("f*g, dg/df = h", lambda: f * g, lambda: g * vf + f * h * vf),
+                 ("g**3*f, dg/df = h*f", lambda: g ** 3 * f, lambda: 3 * g * g * h * f * vf * f + g ** 3 * vf)]
+        n = 0
+        for nm_, mkF, mkwant in cases:
+            rel = {g: h} if "h*f" not in nm_ else {g: h * f}
+            D_ = expand_derivatives(derivative(mkF() * dx, f, vf, coefficient_derivatives=rel))
+            r_ = D_.integrals()[0].integrand()
+            want = mkwant()
+            res = check_same(atoms_world(complex_mode=True), r_, lambda w, c, env, want=want: den(w, want, c, env), (), timeout_ms=tmo, what=f"coefficient_derivatives (complex values): {nm_}")
+            n += 1
+            if res.status != "proved":
+                return res
+        return proved("normaliser", vcs=n, sample=f"{n} user-supplied derivative relations with complex field values and a complex direction")
+    run.add("coefficient_derivatives/complex-field-values", cd_complex, kind="values")
+
     G = lambda e, w_, v_, cd=None: derivative(e, w_, v_, coefficient_derivatives=cd)  # noqa: E731
     one_pass("same (w,v), different coefficient_derivatives", lambda: (G(sin(f) * g, f, vf, {g: 3 * f * f}), G(f * f * h, f, vf, {h: ufl.cos(f)})))
     one_pass("same (w,v), relation for g vs none", lambda: (G(f * g, f, vf, {g: h}), G(f * g, f, vf)))
